@@ -59,7 +59,7 @@ def mutate(rng, data, nops=None, utf8_only=False):
         if not b:
             b = bytearray(b"fn x() {}\n")
         op = rng.choice(["bitflip", "truncate", "randrange", "multibyte", "multibyte_before_bang", "dup", "snippet", "snippet",
-                         "crlf", "delete", "multibyte_in_macro_line", "bad_utf8_tail", "bad_utf8_mid"])
+                         "crlf", "delete", "multibyte_in_macro_line", "bad_utf8_tail", "bad_utf8_mid", "repeat_token"])
         if utf8_only and op in ("bitflip", "randrange", "bad_utf8_tail", "bad_utf8_mid"):
             op = "snippet"
         ops.append(op)
@@ -67,6 +67,22 @@ def mutate(rng, data, nops=None, utf8_only=False):
             for _j in range(rng.choice([1, 1, 4, 16])):
                 i = rng.randrange(len(b))
                 b[i] ^= 1 << rng.randrange(8)
+        elif op == "repeat_token":
+            # many copies of a small token: unclosed openers, deep nesting, long runs (what backtracking and recursive
+            # grammars are sensitive to)
+            tok = rng.choice(['/*', '"dir/*", ', '(', '!(', 'info!(', '"', '\\', '//', 'r#"', '{', '[ref: ', '/* */', '*/', 'a::', '"a" ',
+                              'info!(k = ', '/*/', 'é'])
+            n = rng.choice([30, 60, 120, 300, 1000])
+            # very long runs only of tokens that are not identifier characters: the grammar retries its macro-name rule at
+            # every character of an identifier-like run, so a 100 000-character "identifier" costs quadratic time - a
+            # pathological shape, not a hang (DESIGN 12.7)
+            if tok in ('/*', '(', '"', '{', '//', '\\') and rng.random() < 0.15:
+                n = 100000
+            i = _boundary(b, rng.randrange(len(b) + 1))
+            ins = (tok * n).encode("utf-8")
+            if tok == '/*' and rng.random() < 0.5:
+                ins += b"*/" * n
+            b[i:i] = ins + b"\n"
         elif op in ("bad_utf8_tail", "bad_utf8_mid"):
             # an incomplete / malformed UTF-8 sequence: a proper prefix of a 2-4 byte character, a lone continuation
             # byte, an overlong form, a surrogate, a byte that can never occur
